@@ -108,7 +108,7 @@ impl Definition {
     }
 
     pub fn is_optional(self) -> bool {
-        self == Definition::CommaList
+        self == Definition::CommaList || self == Definition::InfixApply
     }
 }
 
